@@ -66,6 +66,8 @@ pub struct Obs {
     pub hints: Vec<(usize, Option<usize>)>,
     /// the iterator driven through std adaptors: (with index?, reader state 0 fresh / 1 after one next() / 2 after seek(1), program, answers)
     pub progs: Vec<(bool, u8, Prog, iterprog::Out<Result<MRead, String>>)>,
+    /// by path: shape_count() of ShapeReader::from_path on the path the writer was given
+    pub disk_count: Option<Result<usize, String>>,
 }
 
 pub fn mread_eq(a: &MRead, b: &MRead) -> bool {
@@ -81,11 +83,13 @@ pub fn observe(case: &Case) -> Obs {
     let red = reduced_set(case.ty);
     let libs: Vec<Shape> = case.seq.iter().map(|i| to_lib(&red[*i])).collect();
     let n = libs.len();
+    let mut disk_count: Option<Result<usize, String>> = None;
     let (shp, shx);
     if case.disk {
         let dir = super::c01_c02::scratch_dir();
         let tid: String = format!("{:?}", std::thread::current().id()).chars().filter(|c| c.is_ascii_digit()).collect();
-        let path = dir.join(format!("c04-{}.shp", tid));
+        // (every third case names the .shp in capitals: the companion is the same path with the extension "shx")
+        let path = dir.join(if case.seq.len() % 3 == 2 { format!("C04-{}.SHP", tid) } else { format!("c04-{}.shp", tid) });
         std::fs::write(&path, vec![0xEEu8; 70_000]).expect("prefill");
         std::fs::write(path.with_extension("shx"), vec![0xEEu8; 9_000]).expect("prefill");
         {
@@ -100,8 +104,12 @@ pub fn observe(case: &Case) -> Obs {
                 }
             }
         }
-        shp = std::fs::read(&path).unwrap();
-        shx = std::fs::read(path.with_extension("shx")).unwrap();
+        shp = std::fs::read(&path).unwrap_or_default();
+        shx = std::fs::read(path.with_extension("shx")).unwrap_or_default();
+        disk_count = Some(ShapeReader::from_path(&path).map_err(|e| err_kind(&e)).and_then(|r| r.shape_count().map_err(|e| err_kind(&e))));
+        for stray in ["SHX", "Shx"] {
+            let _ = std::fs::remove_file(path.with_extension(stray));
+        }
         let _ = std::fs::remove_file(&path);
         let _ = std::fs::remove_file(path.with_extension("shx"));
     } else {
@@ -203,6 +211,7 @@ pub fn observe(case: &Case) -> Obs {
         nth_pos,
         hints,
         progs,
+        disk_count,
     }
 }
 
@@ -227,6 +236,11 @@ pub fn judge(case: &Case, o: &Obs) -> Vec<(String, String)> {
             if df.records.len() != n {
                 out.push((format!("{}:bytes:record-count", tn), format!("{} records in the .shp, {} written", df.records.len(), n)));
             }
+        }
+    }
+    if let Some(c) = &o.disk_count {
+        if *c != Ok(n) {
+            out.push((format!("{}:by-path:index-not-found-again", tn), format!("ShapeWriter::from_path then ShapeReader::from_path on the same path: shape_count() = {:?}, {} written", c, n)));
         }
     }
     if o.shape_count != Ok(n) {
